@@ -204,23 +204,28 @@ Definition c_validate_owner_aes (ownerpw : bytes) (e : enc) : vres * bytes :=
     end
   end.
 
+(* preparedPasswordAES256 (since dd3e7ff0): processInput, then truncation to 127 bytes; None = its error *)
+Definition c_prepared_password (pw : bytes) : option bytes := option_map c_trunc127 (prep pw).
+
 (* calcOAndUAES256 / calcOAndUAES256Rev6 with the random values made explicit:
    ru, ro = the two 16-byte random strings (validation salt ++ key salt), fk = the random file key.
-   upw := []byte(ctx.UserPW); opw := []byte(ctx.OwnerPW): no preparation, no truncation.
-   Result: (U, O, UE, OE). *)
+   upw, err := preparedPasswordAES256(ctx.UserPW) ... opw, err := preparedPasswordAES256(ctx.OwnerPW): an error of the
+   preparation or of hashRev6 aborts (None).  Result: (U, O, UE, OE). *)
 Definition c_calc_ou_aes (r : N) (userpw ownerpw ru ro fk : bytes) : option (bytes * bytes * bytes * bytes) :=
   let u0 := zeros 32 ++ ru in
-  match c_hash r (userpw ++ c_validation_salt u0) userpw [] with None => None | Some hu =>
+  match c_prepared_password userpw with None => None | Some upw =>
+  match c_hash r (upw ++ c_validation_salt u0) upw [] with None => None | Some hu =>
   let U := hu ++ ru in
   let o0 := zeros 32 ++ ro in
-  match c_hash r ((ownerpw ++ c_validation_salt o0) ++ U) ownerpw U with None => None | Some ho =>
+  match c_prepared_password ownerpw with None => None | Some opw =>
+  match c_hash r ((opw ++ c_validation_salt o0) ++ U) opw U with None => None | Some ho =>
   let O := ho ++ ro in
-  match c_hash r (userpw ++ c_key_salt u0) userpw [] with None => None | Some ku =>
+  match c_hash r (upw ++ c_key_salt u0) upw [] with None => None | Some ku =>
   let UE := aes_cbc_enc ku zero_iv fk in
-  match c_hash r ((ownerpw ++ c_key_salt o0) ++ U) ownerpw U with None => None | Some ko =>
+  match c_hash r ((opw ++ c_key_salt o0) ++ U) opw U with None => None | Some ko =>
   let OE := aes_cbc_enc ko zero_iv fk in
   Some (U, O, UE, OE)
-  end end end end.
+  end end end end end end.
 
 (* writePermissions: the 16-byte block before encryption; bytes 12..15 stay zero *)
 Definition c_perms_block (p : Z) (emd : bool) : option bytes :=
